@@ -15,7 +15,9 @@ import subprocess
 import sys
 
 VERIF = os.path.dirname(os.path.dirname(os.path.abspath(__file__)))
-REPO = "/repo"
+REPO = os.environ.get("MUTANT_REPO", "/repo")      # another worktree of /repo for parallel lanes
+if REPO != "/repo":
+    os.environ["VERIF_REPO"] = REPO
 
 
 def sh(cmd, cwd=None, env=None, timeout=3600):
